@@ -53,7 +53,7 @@ RULE = ('sequences of 1-9 blocks of compatible raster-aligned events (block/sinc
         'pp.calc_duration(*events) == pp.calc_duration(get_block); duration() total and count; every ADC sample time, RF '
         'centre time and gradient corner time of waveforms_and_times / rf_times / adc_times (also with time_range windows that start in the first block, at 0 and at random, incl. waveforms(time_range)) and '
         'the t_* outputs of calculate_kspace == prefix sum of the durations + the in-block time; TotalDuration and the '
-        '[BLOCKS] column of the written file; durations after re-reading, also into an object created for another block raster (x2, /2, x1.5, x4) and written again: the new file\'s [BLOCKS] integers x its BlockDurationRaster and TotalDuration must still be the stored durations; a USED object (other / more blocks, gapped numbers, decoded once) reads the file and must then be indistinguishable from a fresh object that read it (block tables, duration(), sum(block_durations), time axes, time_range windows, calculate_kspace, rewritten file text); block_events / block_durations of every object must carry the same keys in the same order with duration() == sum(block_durations). Correspondence: the block-table model over the same history,  set_block_duration, calc_duration, '
+        '[BLOCKS] column of the written file; durations after re-reading, also into an object created for another block raster (x2, /2, x1.5, x4) and written again: the new file\'s [BLOCKS] integers x its BlockDurationRaster and TotalDuration must still be the stored durations; a USED object (other / more blocks, gapped numbers, decoded once) reads the file and must then be indistinguishable from a fresh object that read it (block tables, duration(), sum(block_durations), time axes, time_range windows, calculate_kspace, rewritten file text); block_events / block_durations of every object must carry the same keys in the same order with duration() == sum(block_durations). One case in nine is a file of the older format revision 1.3.1 / 1.3.2 written by the harness (blocks reference [DELAYS] entries shorter or longer than the events; trapezoids, ADCs, block pulses): stored duration must be the latest of the delay entry and every event end computed from the numbers in the file, and all the other checks apply to the loaded object. Correspondence: the block-table model over the same history,  set_block_duration, calc_duration, '
         'starts, adc/rf times, gradient piece ends and the [BLOCKS] integers of the extracted Coq model. '
         'non-trivial = at least 2 blocks with >= 2 timed events each or an overwritten block')
 TRUSTED = ['calc_rf_center and the in-event time vectors (rf.t, grad.tt) are taken from the implementation',
@@ -327,10 +327,23 @@ def file_facts(path):
 
 def evaluate(ctx, case, do_kspace=False):
     import pypulseq as pp
+    exp_end = None
     try:
-        seq, inputs = build(case)
+        if case.get('legacy'):
+            # a file of the older format revision (blocks reference [DELAYS], no duration column), written by the harness
+            text, exp_end = tg.legacy_text(case)
+            with tempfile.TemporaryDirectory(prefix='pvC07l') as dl:
+                lf = os.path.join(dl, 'legacy.seq')
+                open(lf, 'w').write(text)
+                seq = pp.Sequence(tg.make_opts(case['sys']))
+                with warnings.catch_warnings():
+                    warnings.simplefilter('ignore')
+                    seq.read(lf)
+            inputs = {}
+        else:
+            seq, inputs = build(case)
     except Exception as e:  # noqa: BLE001
-        ctx.fail('C07/does-not-build', case, {'exception': repr(e)})
+        ctx.fail('C07/does-not-build' + ('-legacy' if case.get('legacy') else ''), case, {'exception': repr(e)})
         return None
     fails = []
     ids = list(seq.block_events)
@@ -338,7 +351,18 @@ def evaluate(ctx, case, do_kspace=False):
     scale = sum(stored.values()) + Fraction(1, 1000)
     # 1. stored duration == latest end over the input events == calc_duration (events) == calc_duration (decoded block)
     cd_in, cd_dec = {}, {}
+    if exp_end is not None and ids != sorted(exp_end):
+        fails.append(('legacy-block-ids', {'got': ids, 'expected': sorted(exp_end)}))
     for i in ids:
+        if exp_end is not None:
+            # event-level oracle computed from the numbers in the file: latest of the delay entry and every event end
+            if i in exp_end and not close(stored[i], exp_end[i], scale):
+                fails.append(('legacy-stored-vs-max-end', {'block': i, 'stored': float(stored[i]), 'expected': float(exp_end[i]),
+                                                           'version': case['version']}))
+            cd_dec[i] = F(pp.calc_duration(seq.get_block(i)))
+            if not close(cd_dec[i], stored[i], scale):
+                fails.append(('calc_duration-decoded-vs-stored', {'block': i, 'calc': float(cd_dec[i]), 'stored': float(stored[i])}))
+            continue
         ends = [x for x in (input_end(e) for e in inputs[i]) if x is not None]
         exp = max(ends + [Fraction(0)])
         if not close(stored[i], exp, scale):
@@ -468,37 +492,42 @@ def evaluate(ctx, case, do_kspace=False):
                 ctx.count('file.checked')
                 # the same file loaded into an object that was created for ANOTHER block raster, and written again: the
                 # durations, the BlockDurationRaster of the new file and its [BLOCKS] integers must still describe them
-                r2 = ctx_rng(case)
-                foreign = dict(case['sys'])
-                foreign['block'] = float(F(case['sys']['block']) * r2.choice([2, Fraction(1, 2), Fraction(3, 2), 4]))
-                s3 = pp.Sequence(tg.make_opts(foreign))
-                fn2 = os.path.join(dname, 'b.seq')
-                with warnings.catch_warnings():
-                    warnings.simplefilter('ignore')
-                    s3.read(fn)
-                    if list(s3.block_events) == ids:
-                        for i in ids:
-                            if not close(F(s3.block_durations[i]), stored[i], scale):
-                                fails.append(('foreign-read-duration', {'block': i, 'got': s3.block_durations[i],
-                                                                        'stored': float(stored[i]), 'object_raster': foreign['block']}))
-                                break
-                        d3, n3, _ = s3.duration()
-                        if n3 != len(ids) or not close(F(d3), total, scale):
-                            fails.append(('foreign-read-duration()', {'got': [float(d3), n3], 'expected': float(total)}))
-                    else:
-                        fails.append(('foreign-read-ids', {'got': list(s3.block_events)}))
-                    s3.write(fn2, create_signature=False)
-                ftotal3, bdr3, cols3 = file_facts(fn2)
-                if bdr3 is None or ftotal3 is None or abs(ftotal3 - total) > abs(total) * Fraction(6, 10 ** 10) + Fraction(1, 10 ** 12):
-                    fails.append(('foreign-rewrite-TotalDuration', {'file': str(ftotal3), 'expected': float(total)}))
+                if bdr is None:
+                    # a sequence loaded from a legacy file carries no raster definitions, and write() adds none: the new
+                    # file can only be read back with the same system (observation, reported; not a C07 clause)
+                    ctx.count('file.written_without_BlockDurationRaster')
                 else:
-                    for i in ids:
-                        if i not in cols3 or not close(cols3[i] * bdr3, stored[i], scale):
-                            fails.append(('foreign-rewrite-BLOCKS-duration', {
-                                'block': i, 'column': cols3.get(i), 'file_raster': float(bdr3), 'stored': float(stored[i]),
-                                'object_raster': foreign['block']}))
-                            break
-                ctx.count('file.foreign_raster_roundtrip')
+                    r2 = ctx_rng(case)
+                    foreign = dict(case['sys'])
+                    foreign['block'] = float(F(case['sys']['block']) * r2.choice([2, Fraction(1, 2), Fraction(3, 2), 4]))
+                    s3 = pp.Sequence(tg.make_opts(foreign))
+                    fn2 = os.path.join(dname, 'b.seq')
+                    with warnings.catch_warnings():
+                        warnings.simplefilter('ignore')
+                        s3.read(fn)
+                        if list(s3.block_events) == ids:
+                            for i in ids:
+                                if not close(F(s3.block_durations[i]), stored[i], scale):
+                                    fails.append(('foreign-read-duration', {'block': i, 'got': s3.block_durations[i],
+                                                                            'stored': float(stored[i]), 'object_raster': foreign['block']}))
+                                    break
+                            d3, n3, _ = s3.duration()
+                            if n3 != len(ids) or not close(F(d3), total, scale):
+                                fails.append(('foreign-read-duration()', {'got': [float(d3), n3], 'expected': float(total)}))
+                        else:
+                            fails.append(('foreign-read-ids', {'got': list(s3.block_events)}))
+                        s3.write(fn2, create_signature=False)
+                    ftotal3, bdr3, cols3 = file_facts(fn2)
+                    if bdr3 is None or ftotal3 is None or abs(ftotal3 - total) > abs(total) * Fraction(6, 10 ** 10) + Fraction(1, 10 ** 12):
+                        fails.append(('foreign-rewrite-TotalDuration', {'file': str(ftotal3), 'expected': float(total)}))
+                    else:
+                        for i in ids:
+                            if i not in cols3 or not close(cols3[i] * bdr3, stored[i], scale):
+                                fails.append(('foreign-rewrite-BLOCKS-duration', {
+                                    'block': i, 'column': cols3.get(i), 'file_raster': float(bdr3), 'stored': float(stored[i]),
+                                    'object_raster': foreign['block']}))
+                                break
+                    ctx.count('file.foreign_raster_roundtrip')
                 # a USED object (already holding other / more blocks under other numbers, decoded once) reads the file:
                 # afterwards it must be indistinguishable from a fresh object that read the same file, and all the places
                 # that derive a total must agree with each other
@@ -511,12 +540,13 @@ def evaluate(ctx, case, do_kspace=False):
     for name, detail in fails[:3]:
         ctx.fail('C07/' + name, case, detail)
     timed = [sum(1 for e in b['events'] if e['k'] != 'label') for b in final_blocks(case)]
-    ctx.evaluated(('c07', repr(case['blocks']), repr(case['set_blocks']), repr(case['sys'])),
-                  nontrivial=sum(1 for t in timed if t >= 2) >= 2 or bool(case['set_blocks']))
+    ctx.evaluated(('c07', repr(case['blocks']), repr(case['set_blocks']), repr(case['sys']), repr(case.get('lblocks'))),
+                  nontrivial=sum(1 for t in timed if t >= 2) >= 2 or bool(case['set_blocks']) or bool(case.get('legacy')))
     ctx.count('family.' + case['sys']['family'])
     ctx.count('blocks.%s' % ('1' if len(ids) == 1 else '2-4' if len(ids) <= 4 else '5-9'))
     ctx.count('history.' + ('overwritten' if case['set_blocks'] else 'append-only'))
     ctx.count('padded.' + str(case['padded']))
+    ctx.count('format.' + ('legacy-%d.%d.%d' % tuple(case['version']) if case.get('legacy') else '1.4'))
     ctx.count('numbering.' + ('arbitrary' if case.get('order') else 'add_block'))
     for d in ds:
         for k in ('rf', 'gx', 'gy', 'gz', 'adc'):
@@ -524,7 +554,7 @@ def evaluate(ctx, case, do_kspace=False):
                 ctx.count('event.' + (d[k]['kind'] if k != 'rf' else 'rf'))
     return {'seq': seq, 'inputs': inputs, 'ids': ids, 'stored': stored, 'cd_in': cd_in, 'ds': ds, 'starts': starts, 'adc': adc,
             'rfx': rfx, 'rfr': rfr, 'wave': wave, 'wd': wd, 'cols': cols, 'total': total, 'scale': scale, 'failed': bool(fails),
-            'ds_model': ds_model, 'tr': tr_results, 'evcount': [int(v) for v in evcount]}
+            'ds_model': ds_model, 'legacy': bool(case.get('legacy')), 'tr': tr_results, 'evcount': [int(v) for v in evcount]}
 
 
 TABLES = []      # pending block-table comparisons (filled by reused_object_read, drained by compare_tables)
@@ -662,7 +692,7 @@ def compare_model(ctx, items):
     lines, index = [], []
     for ci, (case, it) in enumerate(items):
         g = qtok(F(it['seq'].grad_raster_time))
-        for i in it['ids']:
+        for i in ([] if it['legacy'] else it['ids']):
             args = [input_arg(e) for e in it['inputs'][i]]
             lines.append('timing.setdur %s %d %s' % (g, len(args), ' '.join(args)))
             index.append((ci, 'setdur', i))
@@ -807,7 +837,8 @@ def run(ctx):
     n = {'quick': 420, 'thorough': 15000}[ctx.tier]
     rng = ctx.rng('sequences')
     import itertools
-    cases = itertools.chain(corpus(), (gen_case(rng) for _ in range(n)))     # lazily: time-boxed runs
+    lrng = ctx.rng('legacy')
+    cases = itertools.chain(corpus(), (tg.gen_legacy(lrng) if k % 9 == 4 else gen_case(rng) for k in range(n)))     # lazily
     pending = []
     for i, case in enumerate(cases):
         if ctx.out_of_time():
